@@ -13,6 +13,7 @@ def main(argv):
     mod = importlib.import_module('vmon.props.' + pid.lower())
     ctx = core.Ctx(tier, seed, shard)
     ctx.classify = getattr(mod, 'classify', None)
+    ctx.shardinfo = {'tier': tier, 'seed': seed, 'shard': shard, 'nshards': nshards, 'san': san, 'stride': stride}
     res = {'shard': shard, 'san': san, 'crysp_path': os.path.dirname(crysp.__file__), 'status': 'ok'}
     # oracle self-test first: a broken oracle makes the run inconclusive, never a violation
     try:
